@@ -785,14 +785,18 @@ def sec_fsc_semantics(rec, shape=(1, 2, 4), m=(0, 0.5, 1.0), patches=None):
                 for k in np.ndindex(shape):
                     rolled[k] = A[tuple((k[j] + lag[j]) % shape[j] for j in range(3))]
                 fr = _obj(xp.fftn(rolled))
-                pw0, cov = _obj(calls[1 + 2 * e]), _obj(calls[2 + 2 * e])
-                g1, g2 = [], []
+                # the two shell sums of this entry (power of the displaced sub-volume, cross-spectrum with the template), in whichever order the code takes them
+                pair = (_obj(calls[1 + 2 * e]), _obj(calls[2 + 2 * e]))
+                g1, g2 = ([], []), ([], [])
                 for k in np.ndindex(shape):
                     x, y = C.SymComplex.of(fr[k]), C.SymComplex.of(ft[k])
-                    g1.append(zr(cov[k]) == zr(x.re) * zr(y.re) + zr(x.im) * zr(y.im))
-                    g2.append(zr(pw0[k]) == zr(x.re) * zr(x.re) + zr(x.im) * zr(x.im))
-                rec.query(f"{tag}/path{pi}/entry{r}/cross-spectrum-of-(sub-volume-at-lag{lag},template)", [p.condition()], z3.And(*g1), key="C04/fsc/entry-lag", replay=rp, twin=False)
-                rec.query(f"{tag}/path{pi}/entry{r}/power-of-sub-volume-at-lag{lag}", [p.condition()], z3.And(*g2), key="C04/fsc/entry-lag", replay=rp, twin=False)
+                    for w in range(2):
+                        g1[w].append(zr(pair[w][k]) == zr(x.re) * zr(y.re) + zr(x.im) * zr(y.im))
+                        g2[w].append(zr(pair[1 - w][k]) == zr(x.re) * zr(x.re) + zr(x.im) * zr(x.im))
+                both = z3.Or(z3.And(*g1[0], *g2[0]), z3.And(*g1[1], *g2[1]))
+                rec.query(f"{tag}/path{pi}/entry{r}/cross-spectrum-of-(sub-volume-at-lag{lag},template)", [p.condition()], z3.Or(z3.And(*g1[0]), z3.And(*g1[1])), key="C04/fsc/entry-lag", replay=rp, twin=False)
+                rec.query(f"{tag}/path{pi}/entry{r}/power-of-sub-volume-at-lag{lag}", [p.condition()], z3.Or(z3.And(*g2[0]), z3.And(*g2[1])), key="C04/fsc/entry-lag", replay=rp, twin=False)
+                rec.query(f"{tag}/path{pi}/entry{r}/one-shell-sum-each-for-the-power-and-the-cross-spectrum", [p.condition()], both, key="C04/fsc/entry-lag", replay=rp, twin=False)
     finally:
         C.SQRT_MODE["opaque"] = False
 
